@@ -199,7 +199,7 @@ func Main(h Harness) {
 		raw, _ := json.Marshal(b)
 		pending[i] = wtask{Batch: raw}
 	}
-	crashes, hangs := 0, 0
+	crashes, hangs, cappedBatches := 0, 0, 0
 	for round := 0; len(pending) > 0 && round < 200; round++ {
 		var retry []any
 		cur := pending
@@ -254,7 +254,7 @@ func Main(h Harness) {
 			total.Evaluations += r.Evaluations
 			if f := os.Getenv("VERIF_DEBUG_BATCHES"); f != "" {
 				if fh, err := os.OpenFile(f, os.O_APPEND|os.O_CREATE|os.O_WRONLY, 0o644); err == nil {
-					fmt.Fprintf(fh, "%s from=%d evaluations=%d nontrivial=%d\n", string(t.Batch), t.From, r.Evaluations, r.Nontrivial)
+					fmt.Fprintf(fh, "%s from=%d evaluations=%d nontrivial=%d capped=%v\n", string(t.Batch), t.From, r.Evaluations, r.Nontrivial, r.Capped)
 					fh.Close()
 				}
 			}
@@ -273,6 +273,7 @@ func Main(h Harness) {
 			}
 			if r.Capped {
 				capped = true
+				cappedBatches++
 			}
 		})
 		pending = retry
@@ -285,7 +286,7 @@ func Main(h Harness) {
 		extra["count_"+k] = n
 	}
 	if capped {
-		extra["capped"] = "time budget reached; the enumeration is incomplete"
+		extra["capped"] = fmt.Sprintf("an internal deadline (the check's budget, or a batch's time slice) ended %d of %d batches early; the enumeration is incomplete", cappedBatches, len(batches))
 	}
 	rep.Finish(lib.Coverage{
 		Evaluations:        total.Evaluations,
